@@ -258,4 +258,34 @@ theorem jwe_accepts_conformant_json_rfc (o : Oracle) (L : Laws o) (d : JDesc) (W
   obtain ⟨ok, D⟩ := conformant_ok o L.toCodecLaws d W
   exact jwe_accepts_conformant_json o L d ok data hform D pre r post hsplit enc hav henc cek pt kw' hpre hfind hk hkm hseal
 
+
+/-- the case "no protected header, with a JWE AAD" spelled out: the Additional Authenticated Data is
+    '.' ‖ BASE64URL(JWE AAD) (RFC 7516 §5.1 step 14 with an empty Encoded Protected Header), all parameters live in the
+    shared unprotected / per-recipient headers, and the message decrypts. -/
+theorem jwe_accepts_conformant_json_noprot_aad (o : Oracle) (L : Laws o) (d : JDesc) (W : ConformantJSON o d) (data : Bytes)
+    (hnoprot : d.b64prot = []) (haad : d.b64aad ≠ [])
+    (hform : o ⟨"jwe.decodeJSON", [.bytes data]⟩ = d.topGeneral ∨
+             ∃ r0, d.rcpts = [r0] ∧ o ⟨"jwe.decodeJSON", [.bytes data]⟩ = d.topFlat r0)
+    (pre : List RDesc) (r : RDesc) (post : List RDesc) (hsplit : d.rcpts = pre ++ r :: post)
+    (enc : String) (hav : encAvailable enc = true) (henc : joseEnc d.hp d.hu r.h = enc)
+    (cek pt : Bytes) (kw' : Wire)
+    (hpre : ∀ r' ∈ pre, o ⟨"findKeyWrapper", [.obj d.hp.raw, .obj d.hu.raw, .obj r'.h.raw]⟩ = .none)
+    (hfind : o ⟨"findKeyWrapper", [.obj d.hp.raw, .obj d.hu.raw, .obj r.h.raw]⟩ = kw') (hk : kw'.isNone = false)
+    (hkm : o ⟨"kw.unwrap", [kw', .bytes r.ek, joseView d.hp d.hu r.h]⟩ = .bytes cek)
+    (hseal : o ⟨"enc.encrypt", [.str enc, .bytes cek, .bytes d.iv, .bytes (46 :: d.b64aad), .bytes pt]⟩ =
+          .arr [.bytes d.ct, .bytes d.tag]) :
+    (parseJSON data >>= decrypt).run o = .ok pt := by
+  have hz : d.hp.zip ≠ jwa.DEF := by
+    rcases W.prot with ⟨_, _, _, h4⟩ | ⟨h1, _⟩
+    · rw [h4]; simp [jwa.DEF]
+    · exact absurd hnoprot h1
+  have hl : (d.b64aad.length == 0) = false := by
+    cases hb : d.b64aad with
+    | nil => exact absurd hb haad
+    | cons a t => simp
+  refine jwe_accepts_conformant_json_rfc o L d W data hform pre r post hsplit enc hav henc cek pt kw' hpre hfind hk hkm
+    ⟨pt, ?_, by rw [if_neg hz]⟩
+  rw [hl, hnoprot]
+  simpa using hseal
+
 end GoatProofs.C05
